@@ -842,6 +842,10 @@ class ParallelProcess(Process):
         # Only end once.
         if self._ended:
             return
+        if self._pending_command:
+            # collect the result of a command that is still running so
+            # that the child is free to receive the end command
+            self.get_command_result()
         self.send_command('end')
         if self.profile:
             stats = pstats.Stats()
